@@ -299,6 +299,7 @@ def generate() -> str:
 
 
 EXTRA_SECTIONS: list = []
+import extract_clean; EXTRA_SECTIONS.append(extract_clean.section)  # noqa: E402,E702  (M8, C11)
 
 
 def main(write: bool = True) -> int:
